@@ -368,10 +368,9 @@ Definition withdraw_liquidity (w : world) (sender : string) (funds : list coin) 
   let* total_shares := total_share w lp in
   let* ratio := dec_from_ratio U256_MAX amount total_shares in
   let* _ := ensure (ratio <=? DEC) "InvalidLpShareToWithdraw" in
+  (* Uint128::checked_multiply_ratio(amount, total_shares): exact floor(reserve * amount / total) *)
   let* refunds_all := mapM (fun a =>
-                        let* ad := dec_from_ratio U256_MAX (amount_of a) 1 in
-                        let* m := dec_mul U256_MAX ad ratio in
-                        let* r := chk U128_MAX (dec_floor m) in
+                        let* r := mul_ratio U128_MAX (amount_of a) amount total_shares in
                         Ok (denom_of a, r)) (p_assets p) in
   let refunds := filter (fun c => 0 <? amount_of c) refunds_all in
   let* assets' := foldM (fun acc r =>
